@@ -139,7 +139,7 @@ def _event_pre(at, flag, n):
 
 
 @harness(
-    "C20", timeout=(150, 1200),
+    "C20", timeout=(250, 1200),
     shards=tier(_kev(["find_qr", "find_repo"]) + [{"kernel": "find_relevant", "ev": e} for e in ("none", "raise")],
                 _kev(ALL_FIND) + [{"kernel": k, "ev": e, "full": 1} for k in ("find_qr", "find_repo") for e in EVENTS]),
     functions=["service_class:ServiceClass._c_find_scp", "service_class:RelevantPatientInformationQueryServiceClass.SCP",
@@ -206,7 +206,7 @@ def _outk(o):
 
 
 @harness(
-    "C20", timeout=(250, 1200), functions=RET_FUNCS,
+    "C20", timeout=(400, 1200), functions=RET_FUNCS,
     shards=tier(_kev(["get_qr"]) + [{"kernel": "move_qr", "ev": e} for e in ("none", "end")],
                 _kev(RET_KERNELS + ["get_nobulk"]) + [{"kernel": k, "ev": "none", "full": 1} for k in RET_KERNELS]),
     bounds="C-GET / C-MOVE; N in 1..%d (quick: N = 2); handler yields <= %d pairs; status object of every kind (first result; later "
